@@ -990,7 +990,7 @@ func C11() *engine.Check {
 	return &engine.Check{
 		Property: "C11",
 		Level:    "model_checking",
-		Subs:     []*engine.Sub{c11AtomSub(), c11SharedSub(), c11WideSub(), c11StructSub(), c11ConcatSub(), c11MapSub(), selCollideSub("C11"), c11ConcSub(), concRaceSub("C11")},
+		Subs:     []*engine.Sub{c11AtomSub(), c11SharedSub(), c11WideSub(), c11StructSub(), c11ConcatSub(), c11MapSub(), c11HugeSub(), selCollideSub("C11"), c11ConcSub(), concRaceSub("C11")},
 		Assumptions: []string{
 			"'every selector resolves' is decided with the real selector.Select per statement (per element under quantifiers); selector semantics are C12's business",
 			"don't-care: infinite operands of ordering operators, == on NaN, the empty or, quantifiers over non-lists",
